@@ -25,7 +25,7 @@ DESIGN_REF = "DESIGN.md section 4.8"
 TECHNIQUE = ("solver-enumerated permutations / value pairs (CrossHair+z3 selectors) through the real Hasher; the "
              "canonicalisation step traced with a symbolic iteration order")
 LEVEL_TEXT = ("Every insertion order of 3-4 element dicts/sets/frozensets (flat and nested) over order-sensitive "
-              "universes, every ordered pair of a 33-value typed universe, aliasing vs copies of strings, md5 and sha1: "
+              "universes, every ordered pair of a 35-value typed universe, aliasing vs copies of strings, md5 and sha1: "
               "equal values always hash alike, different values/types never.")
 LEVEL_NOTE = ("Trusted: CrossHair/z3 for completeness of the split, hashlib, pickle's opcode emitter. PYTHONHASHSEED "
               "variation is represented only by symbolic iteration orders of the canonicalisation step. Outside: md5 "
@@ -82,7 +82,8 @@ def _build(kind, items, order, depth2):
     if kind == "dict":
         v = {}
         for k in seq:
-            v[k] = ("v", k) if not isinstance(k, frozenset) else "fs"
+            # (negative int keys share one value: nothing but the key itself can order two of them)
+            v[k] = "fs" if isinstance(k, frozenset) else ("neg" if type(k) is int and k < 0 else ("v", k))
     elif kind == "set":
         v = set()
         for k in seq:
@@ -165,16 +166,17 @@ def _typed_universe():
     return [1, 1.0, True, 0, 0.0, False, -1, -2, 2 ** 70, "a", b"a", "", b"", None, (1,), [1], {1}, frozenset([1]),
             {1: 2}, {1: 2.0}, (1, (2,)), (1, [2]), [[1], 2], [[1.0], 2], {"k": [1, "a"]}, {"k": [1, b"a"]},
             ("a", "b"), ("ab",), {0, 8}, frozenset([0, 8]),
+            {"k": 0, -1: "v"}, {"k": 0, -2: "v"},    # mixed-type keys; -1 and -2 collide under the builtin hash
             -0.0, {0.0, "z"}, {-0.0, "z"}]           # signed zeros compare equal but are different values (copysign)
 
 
 def ob_discr(i: int, j: int, sha: bool) -> bool:
     """
-    pre: 0 <= i <= 32 and 0 <= j <= 32
+    pre: 0 <= i <= 34 and 0 <= j <= 34
     post: _
     """
     H.enter()
-    a, b, sh = H.select(i, 0, 32), H.select(j, 0, 32), bool(sha)
+    a, b, sh = H.select(i, 0, 34), H.select(j, 0, 34), bool(sha)
     with H.native():
         import joblib
         u1, u2 = _typed_universe(), _typed_universe()      # two independent builds: equal values, distinct objects
@@ -219,7 +221,7 @@ def validate():
     # upstream pinned digests (test_hashes_stay_the_same)
     rows.append(("upstream digest 1", joblib.hash("This is a string to hash") == "71b3f47df22cb19431d85d92d0b230b2", ""))
     rows.append(("upstream digest 2", joblib.hash({"abcde": 123, "sadfas": [-9999, 2, 3]}) == "aeda150553d4bb5c69f0e69d51b0e2ef", ""))
-    rows.append(("universe has 33 values", len(_typed_universe()) == 33, ""))
+    rows.append(("universe has 35 values", len(_typed_universe()) == 35, ""))
     return rows
 
 
@@ -241,7 +243,7 @@ def obligations(tier, seed):
                             "params": {"kind": kind, "universe": uni}, "timeout": 900,
                             "bounds": "all 120 insertion orders of 5 items (%s) against the first and the last order" % uni})
     obs.append({"name": "discr", "fn": "ob_discr", "mode": "S", "timeout": 600,
-                "bounds": "all 1089 ordered pairs of a 33-value typed universe, md5 and sha1"})
+                "bounds": "all 1225 ordered pairs of a 35-value typed universe, md5 and sha1"})
     obs.append({"name": "alias", "fn": "ob_alias", "mode": "S", "timeout": 120, "kf": ["KF-C08-aliased-tuples"],
                 "bounds": "4 strings x str/bytes (and 2 tuples) x list/tuple/dict: the same object twice vs equal distinct objects"})
     return obs
